@@ -65,6 +65,7 @@ def mixes():
     out["mqtt"] = (["@mqtt_trigger(\"t/a\")"], {"mqtt": "t/a"})
     out["service"] = (["@service(\"pyscript.svc1\")"], {"service": "svc1"})
     out["updown"] = (["@time_trigger(\"startup\", \"shutdown\")"], {"updown": True})
+    out["time_down"] = (["@time_trigger(\"shutdown\", \"period(now + 1s, 5s)\")"], {"time": 5, "down": True})
     out["combo"] = (["@state_trigger(\"pyscript.a == '1'\")", "@event_trigger(\"ev1\")", "@time_trigger(\"shutdown\")"],
                     {"state": ["pyscript.a"], "event": "ev1", "down": True})
     return out
@@ -72,7 +73,7 @@ def mixes():
 
 MIXES = mixes()
 QUICK_MIXES = ["state1", "state3_0", "state3_1", "state3_2", "state3_3", "state3_4", "state3_5", "state_attr", "time", "event",
-               "mqtt", "service", "updown", "combo"]
+               "mqtt", "service", "updown", "time_down", "combo"]
 # the webhook mix allows a single live generation (a second registration of the same id is an error in HA)
 WEBHOOK_MIX = (["@webhook_trigger(\"hookA\")"], {"webhook": "hookA"})
 
